@@ -700,6 +700,20 @@ class Refinements:
                 sc = hir.simp(f["scrut"])
                 gp = cx.last.get(id(sc), cx.order.get(id(sc), 0))
                 alts = hir.pat_alternatives(f["pat"])
+                # checked access: in the `Some` arm of `a.get(i)` / `a.get_mut(i)` on an array of known length N, i < N; in `None`, i >= N
+                if sc.get("k") == "call" and len(sc.get("args", [])) == 2 and \
+                        str(sc.get("resolved") or sc.get("callee") or "").split("::")[-1] in ("get", "get_mut") and \
+                        str(sc.get("resolved") or sc.get("callee") or "").startswith("core::slice::"):
+                    recv = hir.peel(hir.simp(sc["args"][0]))
+                    n_ = array_len(str(recv.get("ty", "")).lstrip("&"), cx.consts) or array_len(sc.get("recv_ty"), cx.consts)
+                    iw = _peel_widening(sc["args"][1])
+                    ip = hir.place_str(iw) if iw.get("k") in ("local", "field", "un") else None
+                    seg = hir.last_seg(hir.pat_path(alts[0])) if len(alts) == 1 else None
+                    if n_ is not None and ip and seg in ("Some", "None") and not f.get("guard"):
+                        if seg == "Some":
+                            self._add(ip, -BIG, n_ - 1, gp, fi)
+                        else:
+                            self._add(ip, n_, BIG, gp, fi)
                 comps = [(sc, f["pat"])]
                 if sc.get("k") == "tuple":
                     comps = []
